@@ -4,7 +4,8 @@
    the callable is invoked exactly once, on a live object (a = 1), never through a stale pointer
    (InvokeTrap / Crash are never enabled); isFinished() is observed true (FinSeen) only after the
    callable returned; join() returns only after that and then isFinished() is true; the lvalue
-   arguments reached the callable (b of JoinRet); a Runnable is run once and destroyed afterwards.
+   arguments reached the callable (b of JoinRet); a Runnable is run once and destroyed afterwards;
+   a starter that only polls isFinished() sees what the callable wrote (Payload a = 42).
    Event fields: e, a, b.  Begin carries a = callable kind (0 function pointer, 1 small closure,
    2 large closure, 3 Runnable) and b = number of arguments. *)
 EXTENDS Naturals, Sequences, TLC, Json, IOUtils
@@ -19,7 +20,7 @@ TInit == /\ x \in 1..Len(Ix) /\ l = Ix[x].s + 1
          /\ called = FALSE /\ invoked = 0 /\ ended = FALSE /\ destroyed = FALSE /\ finseen = FALSE
 Is(name) == l <= Ix[x].e /\ E.e = name
 Adv == l' = l + 1 /\ UNCHANGED <<x, kind, nargs>>
-ExpectedArgs == IF kind = 3 THEN 0 ELSE IF nargs = 0 THEN 0 ELSE IF nargs = 1 THEN 10 ELSE 11
+ExpectedArgs == IF kind \in {3, 4} THEN 0 ELSE IF nargs = 0 THEN 0 ELSE IF nargs = 1 THEN 10 ELSE 11
 TNext ==
   \/ Is("StartCall") /\ ~called /\ called' = TRUE /\ UNCHANGED <<invoked, ended, destroyed, finseen>> /\ Adv
   \/ Is("StartRet") /\ called /\ UNCHANGED <<called, invoked, ended, destroyed, finseen>> /\ Adv
@@ -32,6 +33,7 @@ TNext ==
        /\ ended' = TRUE /\ UNCHANGED <<called, invoked, destroyed, finseen>> /\ Adv
   \/ Is("Destroy") /\ kind = 3 /\ ended /\ ~destroyed /\ destroyed' = TRUE /\ UNCHANGED <<called, invoked, ended, finseen>> /\ Adv
   \/ Is("FinSeen") /\ ended /\ finseen' = TRUE /\ UNCHANGED <<called, invoked, ended, destroyed>> /\ Adv
+  \/ Is("Payload") /\ ended /\ E.a = 42 /\ UNCHANGED <<called, invoked, ended, destroyed, finseen>> /\ Adv
   \/ Is("JoinRet") /\ ended /\ E.a = 1 /\ E.b = ExpectedArgs /\ UNCHANGED <<called, invoked, ended, destroyed, finseen>> /\ Adv
   \/ Is("Done") /\ invoked = 1 /\ ended /\ (kind = 3 => destroyed) /\ UNCHANGED <<called, invoked, ended, destroyed, finseen>> /\ Adv
 TSpec == TInit /\ [][TNext]_vars
